@@ -5,6 +5,7 @@
 // consecutive numbering, last flag) and C16 (re-delivered queries are never processed twice); each property
 // binary picks its action mix and the verdicts it owns.
 #pragma once
+#include <map>
 #include "sim/harness.h"
 #include "sim/scenario.h"
 #include "sim/monitors.h"
@@ -58,7 +59,8 @@ struct Peer {
 	Bytes tun_ip;
 	bool lazy = false; int F = 100;
 	std::deque<Bytes> up_queue; Bytes up_z; size_t up_off = 0; int up_frag = 0; bool up_active = false;
-	Bytes up_cur_pkt;
+	int up_next_to = -1;
+	Bytes up_cur_pkt; int up_cur_to = -1;   // peer index the current upstream packet is addressed to (client-to-client), -1 the server
 	std::vector<Bytes> up_completed;
 	size_t absorbed = 0;
 	std::vector<Bytes> zs;          // compressed packets the server read from its tun device for this session
@@ -89,8 +91,9 @@ struct Run {
 	// statistics for the non-trivial rules
 	int n_redeliver = 0, n_red_cache = 0, n_red_qmem = 0, n_red_pending = 0, n_red_lastfrag = 0, n_red_case = 0, n_red_otheraddr = 0;
 	int n_multi3 = 0, n_nreq_ok = 0, n_badfrag = 0, n_dup_twice = 0, n_realsoon = 0, n_tun_via_held = 0, n_long = 0;
-	int n_cache_same = 0, n_trunc = 0, n_lost_answers = 0, n_giveup = 0, n_raw = 0, n_recycled = 0, n_recycled_data_before_n = 0, n_c2c = 0, n_red_altdomain = 0, n_qr = 0;
+	int n_cache_same = 0, n_trunc = 0, n_lost_answers = 0, n_giveup = 0, n_raw = 0, n_recycled = 0, n_recycled_data_before_n = 0, n_c2c = 0, n_red_altdomain = 0, n_qr = 0, n_hsreq = 0;
 	uint64_t n_data_emits = 0;
+	std::map<int, std::pair<int, Bytes>> c2c_on_delivery;   // last-fragment query record -> (receiving peer, packet): registered in the receiver's stream when the server reads that query
 	uint64_t t_last_sent = 0;    // when the harness last handed a query to the network
 	std::vector<std::string> classes;
 };
@@ -140,6 +143,7 @@ struct Engine {
 					if (refproto::decode_query(dg.data, R.cfg.domain, qq) && qq.name == r.name) {
 						r.t_delivered = sim::W.now ? sim::W.now : 1;
 						cur_qrec = (int)k;
+						{ auto c2 = R.c2c_on_delivery.find((int)k); if (c2 != R.c2c_on_delivery.end()) { Peer &to = *R.peers[c2->second.first]; to.zs.push_back(refproto::zcompress(c2->second.second)); to.offered.push_back(c2->second.second); R.c2c_on_delivery.erase(c2); } }
 						if (r.redelivery) classify_at_delivery(r);
 						R.acks.push_back(AckEv{sim::W.now, r.ack.user, r.ack.dn_seq, r.ack.dn_frag, r.redelivery});
 						break;
@@ -427,10 +431,10 @@ struct Engine {
 				Bytes dst = R.s->server_tun_ip(); Peer *to = nullptr;
 				if (P.c2c && R.peers.size() > 1 && t.chance(1, 3)) { Peer &o = *R.peers[t.below((uint32_t)R.peers.size())]; if (&o != &p) { dst = o.tun_ip; to = &o; } }
 				Bytes pkt = scn::gen_packet(t, dst, p.tun_ip, (uint16_t)(1000 + p.up_completed.size()), std::min<size_t>(P.max_body, 900));
-				if (to) { to->zs.push_back(refproto::zcompress(pkt)); to->offered.push_back(pkt); R.n_c2c++; }   // the receiver's downstream stream will carry it
+				p.up_next_to = to ? peer_index(*to) : -1; if (to) R.n_c2c++;
 				p.up_queue.push_back(pkt);
 			}
-			p.up_cur_pkt = p.up_queue.front(); p.up_queue.pop_front();
+			p.up_cur_pkt = p.up_queue.front(); p.up_queue.pop_front(); p.up_cur_to = p.up_next_to; p.up_next_to = -1;
 			p.up_z = refproto::zcompress(p.up_cur_pkt); p.up_off = 0; p.up_frag = 0; p.up_active = true;
 			p.sc.up_seq = (p.sc.up_seq + 1) & 7;
 		}
@@ -446,7 +450,7 @@ struct Engine {
 		p.sc.data_cmc = (p.sc.data_cmc + 1) % 36;
 		uint16_t id = p.sc.send_name(name);
 		int qi = record(p, id, false, -1, p.sc.addr, name, refproto::qtype_of(p.sc.qtype_k));
-		(void)qi;
+		if (last && p.up_cur_to >= 0) R.c2c_on_delivery[qi] = std::make_pair(p.up_cur_to, p.up_cur_pkt);   // the receiver's downstream stream will carry it from the moment the server has read this query
 		note(fmt("peer%d data id=%u up=%d/%d last=%d %zuB ack=%d/%d", peer_index(p), id, p.sc.up_seq, p.up_frag, (int)last, n, p.sc.dn_seq, p.sc.dn_frag));
 		p.up_off += n; p.up_frag++;
 		if (last) { p.up_active = false; p.up_completed.push_back(p.up_cur_pkt); }
@@ -531,7 +535,11 @@ struct Engine {
 		if (R.t_last_sent && sim::W.now < R.t_last_sent + sim::W.latency_us + 100) sim::W.run_for(R.t_last_sent + sim::W.latency_us + 100 - sim::W.now);
 		// candidate windows
 		std::vector<int> cache, qd, qp, pend;
-		int r_extra = p.flips;
+		// queries the server has read but not answered yet (it holds up to two in lazy mode): any event -- the arrival of the repeat
+		// itself, the send-real-soon timer -- may make it answer and remember them before the repeat is looked up, which pushes the
+		// oldest entries out of its memories; the windows are narrowed by their number
+		int npend = 0; for (size_t k = 0; k < R.q.size(); k++) if (R.q[k].peer == me && !R.q[k].redelivery && R.q[k].t_delivered && R.q[k].answers == 0) npend++;
+		int r_extra = p.flips + npend;
 		int nc = std::max(0, 4 - r_extra), nd = std::max(0, 15 - r_extra), np = std::max(0, 30 - r_extra);
 		int cd = 0, cp = 0, cc = 0;
 		for (size_t k = p.saved_order.size(); k-- > 0;) {
@@ -658,6 +666,22 @@ inline void run_sessions(Tape &t, const Profile &P, Run &R)
 				E.note(fmt("peer%d sends a ping-shaped RESPONSE datagram (QR=1)", E.peer_index(p)));
 				break;
 			}
+			if (P.qr_games && t.chance(1, 12)) {
+				// a handshake-type request in the middle of the session: fragment-size probe with a boundary size (0 and 1 are out of
+				// range: exactly one answer, BADFRAG), echo, codec test -- each is one query and gets at most one answer
+				std::string name;
+				static const int SZ[] = {0, 1, 2, 3, 50, 1200, 2047};
+				switch (t.pick({4, 1, 1})) {
+				case 0: name = refproto::name_fragprobe(p.sc.userid, SZ[t.below(7)], "aaaaaaaaaaaaaaaaaaaaaaaaaa", p.sc.domain); break;
+				case 1: name = refproto::name_z("aA-Aaahhh-Drink-mal-ein", p.sc.cmc++, p.sc.domain); break;
+				default: name = refproto::name_downenc_test("tsuvr"[t.below(5)], 1, p.sc.cmc++, p.sc.domain); break;
+				}
+				uint16_t id = p.sc.send_name(name);
+				E.record(p, id, false, -1, p.sc.addr, name, refproto::qtype_of(p.sc.qtype_k));
+				E.note(fmt("peer%d handshake-type request %.12s id=%u", E.peer_index(p), name.c_str(), id));
+				R.n_hsreq++;
+				break;
+			}
 			E.do_ping(p, P.ack_games ? (int)t.pick({8, 2, 2, 1, 1}) : 0); last_q = sim::W.now; break;
 		case 1: E.do_up(p); last_q = sim::W.now; break;
 		case 2: E.do_offer(p); break;
@@ -672,7 +696,7 @@ inline void run_sessions(Tape &t, const Profile &P, Run &R)
 		case 4: E.do_nreq(p); last_q = sim::W.now; break;
 		case 5: E.do_redeliver(p); break;
 		case 7: E.do_rawmix(p); last_q = sim::W.now; break;
-		case 8: if (R.n_recycled < 2) { if (!E.do_recycle(p)) { R.up = false; R.render = c.describe() + " | scripted handshake after an expiry failed"; return; } last_q = sim::W.now; } break;
+		case 8: if (R.n_recycled < 2 && R.peers.size() == 1) { /* with several sessions the silence would expire all of them */ if (!E.do_recycle(p)) { R.up = false; R.render = c.describe() + " | scripted handshake after an expiry failed"; return; } last_q = sim::W.now; } break;
 		default: {
 			// a burst of answers is lost: the peer keeps pinging with its old acknowledgement (the server re-sends the
 			// fragment and gives the packet up after the sixth attempt)
